@@ -2,18 +2,19 @@
 
    Two labelled transition systems cover the configuration matrix (A is any payload type: no byte is inspected or altered):
      ReadLoop.v  the per-event read loop against the kernel receive buffer and epoll, for every configuration
-                 cfg = (LT | ET | ET+ONESHOT, read buffer size > 0, read limit, ...): synchronous reading in the poller and the
-                 ONESHOT branch of AsyncRead (the same loop run by a task; LT with AsyncReadInPoller reads synchronously);
-     Gate.v      the readEvents gate of AsyncRead (ET with AsyncReadInPoller, not ONESHOT): poller against read task.
+                 cfg = (LT | ET | ET+ONESHOT, read buffer size > 0, read limit, ...): synchronous reading in the poller
+                 (LT with AsyncReadInPoller reads synchronously too);
+     Gate.v      AsyncRead (ET with AsyncReadInPoller, with and without ONESHOT): the readEvents gate, the read task, the
+                 end-of-stream hand-over, and in one-shot mode disarming, re-arming by the task and by the write side.
    Every theorem quantifies over ALL action sequences (= all arrival patterns with bursts, pauses and half-close, all
    interleavings of poller, task and peer), all buffer sizes and all read limits.  Udp.v: the address key and the session map.
    Kernel behaviour (K2: read returns min(available, buffer) bytes in order; K3: LT / ET / ONESHOT readiness reporting) is
    the model's environment, not proved; the executor is assumed to run a task it was given (custom IOExecute included). *)
 From Coq Require Import List Arith NArith ZArith Bool Lia.
 Import ListNotations.
-Require Gate GateProofs ReadLoop ReadLoopProofs Udp UdpProofs OldGate.
+Require Gate GateProofs GateMeasure GateIdle ReadLoop ReadLoopProofs Udp UdpProofs OldGate.
 
-(* ================= the read loop: LT, ET, ONESHOT (sync), ONESHOT (async) ================= *)
+(* ================= the read loop: LT, ET, ONESHOT, synchronous reading ================= *)
 Section Loop.
 Variable A : Type.
 Variable c : ReadLoop.cfg.
@@ -75,11 +76,6 @@ Proof.
   - exact (ReadLoopProofs.eof_closes A c l oneshot_rearms).
 Qed.
 
-(* ONESHOT: no event is deliverable while the loop runs - AsyncRead may start its task without a gate *)
-Theorem c02_one_reader_oneshot l : ReadLoop.md c = ReadLoop.OS -> ReadLoop.ph (run l) <> ReadLoop.Idle ->
-  ReadLoop.deliverable c (run l) = false.
-Proof. exact (ReadLoopProofs.oneshot_one_reader A c l). Qed.
-
 End Loop.
 
 (* idle readers: without new input at most `measure` steps are possible from ANY state, whatever the configuration:
@@ -102,47 +98,50 @@ Proof.
   vm_compute. repeat split; try reflexivity. discriminate.
 Qed.
 
-(* ================= the gate: ET + AsyncReadInPoller ================= *)
+(* ================= the gate: ET + AsyncReadInPoller, with (oneshot = true) and without EPOLLONESHOT ================= *)
 Section Gate.
 Variable A : Type.
-Notation run := (@Gate.run A).
+Variable oneshot : bool.
+Notation run := (@Gate.run A oneshot).
 
 Theorem c02_prefix_async l : exists rest, Gate.sent (run l) = Gate.delivered (run l) ++ rest.
-Proof. exact (GateProofs.prefix A l). Qed.
+Proof. exact (GateProofs.prefix A oneshot l). Qed.
 
-(* never two read tasks of one connection *)
+(* never two read tasks of one connection - in one-shot mode too, whatever re-arms the descriptor (270b003) *)
 Theorem c02_one_reader l : Gate.ntasks (run l) <= 1.
-Proof. exact (GateProofs.one_reader A l). Qed.
+Proof. exact (GateProofs.one_reader A oneshot l). Qed.
 
 (* readEvents stays in {0,1,2}; while the connection is open it is 0 exactly when no task is alive or being started *)
 Theorem c02_counter_range l :
   Gate.r (run l) <= 2 /\
   (Gate.closed (run l) = false -> (Gate.r (run l) = 0 <-> Gate.task (run l) = None /\ Gate.spawning (run l) = false)).
-Proof. split; [exact (GateProofs.counter_range A l) | exact (GateProofs.counter_tracks_task A l)]. Qed.
+Proof. split; [exact (GateProofs.counter_range A oneshot l) | exact (GateProofs.counter_tracks_task A oneshot l)]. Qed.
 
-(* no lost edge: unread data always is somebody's job - an unreported edge, a task about to start, or a live task *)
+(* no lost edge: unread data always is somebody's job - a queued or reported event, a task about to start, a live task, or
+   (one-shot) a re-arm that is about to queue it *)
 Theorem c02_no_lost_edge_async l : Gate.closed (run l) = false -> Gate.avail (run l) <> [] ->
-  Gate.edge (run l) = true \/ Gate.spawning (run l) = true \/ Gate.task (run l) <> None.
-Proof. exact (GateProofs.no_lost_edge A l). Qed.
+  Gate.edge (run l) = true \/ Gate.held (run l) = true \/ Gate.spawning (run l) = true \/ 0 < Gate.rearm (run l) \/
+  Gate.task (run l) <> None.
+Proof. exact (GateProofs.no_lost_edge A oneshot l). Qed.
 
 Theorem c02_complete_async l : Gate.quiescent (run l) -> Gate.delivered (run l) = Gate.sent (run l).
-Proof. exact (GateProofs.complete A l). Qed.
+Proof. exact (GateProofs.complete A oneshot l). Qed.
 
 Theorem c02_eof_async l :
   (Gate.closed (run l) = true -> Gate.delivered (run l) = Gate.sent (run l)) /\
   (Gate.quiescent (run l) -> Gate.eofsent (run l) = true -> Gate.closed (run l) = true).
 Proof.
   split.
-  - intros H. exact (proj1 (GateProofs.closed_complete A l H)).
-  - exact (GateProofs.eof_closes A l).
+  - intros H. exact (proj1 (GateProofs.closed_complete A oneshot l H)).
+  - exact (GateProofs.eof_closes A oneshot l).
 Qed.
 
 (* idle readers: from every reachable state, without new input, at most `measure` steps: the task terminates *)
 Theorem c02_idle_async l (more : list (Gate.action A)) :
-  forallb (fun a => negb (GateProofs.is_input A a)) more = true ->
-  GateProofs.steps_taken A (run l) more <= GateProofs.measure A (run l).
+  forallb (fun a => negb (GateMeasure.is_input A a)) more = true ->
+  GateIdle.steps_taken A oneshot (run l) more <= GateMeasure.measure A (run l).
 Proof.
-  intros H. pose proof (GateProofs.bounded_work A more (run l) (proj2 (GateProofs.run_inv A l)) H). lia.
+  intros H. pose proof (GateIdle.bounded_work A oneshot more (run l) (proj2 (GateProofs.run_inv A oneshot l)) H). lia.
 Qed.
 
 End Gate.
@@ -196,13 +195,22 @@ Proof. destruct (UdpProofs.recv_attributes A buflen s from d) as [pre [H ->]]. e
 End UdpS.
 
 (* ================= non-vacuity ================= *)
-(* the gate: two bursts, the second arriving while the task is alive (counter 2), then half-close: everything is delivered
-   in order, the task closes the connection, nobody is left running *)
+(* the gate (ET): two bursts, the second arriving while the task is alive (counter 2), then half-close: everything is
+   delivered in order, the task closes the connection, nobody is left running *)
 Example c02_example_async :
-  let s := @Gate.run nat [Gate.Arrive 1 [2;3]; Gate.PollGate; Gate.PollSpawn; Gate.TaskRead 1; Gate.Arrive 4 [5]; Gate.PollGate;
+  let s := @Gate.run nat false [Gate.Arrive 1 [2;3]; Gate.PollTake; Gate.PollGate; Gate.PollSpawn; Gate.TaskRead 1; Gate.Arrive 4 [5]; Gate.PollTake; Gate.PollGate;
                           Gate.TaskRead 1; Gate.TaskCheck; Gate.TaskDec; Gate.TaskRead 1; Gate.TaskRead 1; Gate.PeerEOF;
-                          Gate.PollMarkEOF; Gate.PollGate; Gate.TaskCheck; Gate.TaskDrain 1] in
+                          Gate.PollTake; Gate.PollMarkEOF; Gate.PollGate; Gate.TaskCheck; Gate.TaskDrain 1; Gate.TaskClose] in
   Gate.delivered s = [1;2;3;4;5] /\ Gate.closed s = true /\ Gate.task s = None /\ Gate.edge s = false.
+Proof. vm_compute. repeat split; reflexivity. Qed.
+
+(* the gate (one-shot): bytes that arrive while the descriptor is disarmed are not queued; a Write's EPOLL_CTL_MOD re-arms
+   it under the running task and the event only raises the counter; the task's own re-arm at its exit queues the rest *)
+Example c02_example_oneshot :
+  let s := @Gate.run nat true [Gate.Arrive 1 [2]; Gate.PollTake; Gate.PollGate; Gate.PollSpawn; Gate.TaskRead 3; Gate.Arrive 3 []; Gate.Mod; Gate.PollTake; Gate.PollGate;
+                         Gate.TaskCheck; Gate.TaskDec; Gate.TaskRead 3; Gate.TaskCheck; Gate.TaskDec; Gate.Arrive 4 []; Gate.TaskRearm;
+                         Gate.PollTake; Gate.PollGate; Gate.PollSpawn; Gate.TaskRead 3; Gate.TaskCheck; Gate.TaskDec; Gate.TaskRearm] in
+  Gate.delivered s = [1;2;3;4] /\ Gate.task s = None /\ Gate.armed s = true /\ Gate.edge s = false /\ Gate.r s = 0.
 Proof. vm_compute. repeat split; reflexivity. Qed.
 
 (* the loop: LT with a 2-byte buffer and a limit of 1 read per event needs three events for 5 bytes *)
@@ -219,7 +227,6 @@ Print Assumptions c02_no_lost_edge_et.
 Print Assumptions c02_no_lost_edge_oneshot.
 Print Assumptions c02_complete.
 Print Assumptions c02_eof.
-Print Assumptions c02_one_reader_oneshot.
 Print Assumptions c02_idle.
 Print Assumptions c02_d28_refuted.
 Print Assumptions c02_prefix_async.
